@@ -147,15 +147,18 @@ def assumptions_ok(text):
 class Pool:
     """N line-oriented subprocesses; cases are sharded round-robin"""
 
-    def __init__(self, argv, n, env=None, cwd=None):
+    def __init__(self, argv, n, env=None, cwd=None, line_timeout=120):
         self.procs = []
         e = dict(os.environ)
         if env:
             e.update(env)
+        self.argv, self.env, self.cwd, self.line_timeout = argv, e, cwd, line_timeout
         for _ in range(n):
-            self.procs.append(subprocess.Popen(argv, stdin=subprocess.PIPE, stdout=subprocess.PIPE,
-                                               stderr=subprocess.DEVNULL, env=e, cwd=cwd, text=True,
-                                               bufsize=1))
+            self.procs.append(self._spawn())
+
+    def _spawn(self):
+        return subprocess.Popen(self.argv, stdin=subprocess.PIPE, stdout=subprocess.PIPE,
+                                stderr=subprocess.DEVNULL, env=self.env, cwd=self.cwd, text=True, bufsize=1)
 
     def map(self, lines):
         """send lines, collect one output line per input line, preserving order"""
@@ -166,15 +169,29 @@ class Pool:
         out = [None] * len(lines)
         import threading
 
-        def work(p, shard):
+        import select
+
+        def work(k, shard):
             for i, ln in shard:
+                p = self.procs[k]
                 try:
                     p.stdin.write(ln + '\n')
                     p.stdin.flush()
+                    ready, _, _ = select.select([p.stdout], [], [], self.line_timeout)
+                    if not ready:
+                        # no answer in time: replace the process, report the case as not answered
+                        p.kill()
+                        self.procs[k] = self._spawn()
+                        out[i] = 'CRASH timeout'
+                        continue
                     out[i] = p.stdout.readline().rstrip('\n')
+                    if out[i] == '' and p.poll() is not None:
+                        self.procs[k] = self._spawn()
+                        out[i] = 'CRASH died'
                 except (BrokenPipeError, OSError):
-                    out[i] = ''
-        ths = [threading.Thread(target=work, args=(p, s)) for p, s in zip(self.procs, shards)]
+                    out[i] = 'CRASH pipe'
+                    self.procs[k] = self._spawn()
+        ths = [threading.Thread(target=work, args=(k, s)) for k, s in enumerate(shards)]
         for t in ths:
             t.start()
         for t in ths:
@@ -199,12 +216,12 @@ def impl_pool(n=None, repo=None):
     os.makedirs(scratch, exist_ok=True)
     env = {'PYTHONPATH': repo or REPO, 'PYTHONHASHSEED': '0', 'VERIF_SCRATCH': scratch,
            'PYTHONDONTWRITEBYTECODE': '1'}
-    return Pool([PY, os.path.join(VERIF, 'harness', 'impl_worker.py')], n or NPROC, env=env)
+    return Pool([PY, os.path.join(VERIF, 'harness', 'impl_worker.py')], n or NPROC, env=env, line_timeout=400)
 
 
 def model_pool(n=None):
     return Pool(['/bin/sh', '-c', 'ulimit -s unlimited 2>/dev/null; exec ' +
-                 os.path.join(VERIF, 'ocaml', 'driver')], n or NPROC)
+                 os.path.join(VERIF, 'ocaml', 'driver')], n or NPROC, line_timeout=60)
 
 
 def cleanup_scratch():
